@@ -133,6 +133,17 @@ Theorem C07_reload_equiv :
 Proof. exact reload_equiv. Qed.
 Print Assumptions C07_reload_equiv.
 
+(* IndexAll / loadIndex / gcIndex terminate: for every finite universe closed under
+   [content] and containing the roots (any shape, cycles included) some fuel completes
+   the traversal, so [ok = true] above excludes no reachable situation. *)
+Theorem C07_reload_terminates :
+  forall (content : node -> list node) (sok : node -> bool) (U roots : list node),
+    (forall u, In u U -> forall c, In c (content u) -> In c U) ->
+    (forall r, In r roots -> In r U) ->
+    exists fuel g', load content sok fuel roots = (g', true).
+Proof. exact load_terminates. Qed.
+Print Assumptions C07_reload_terminates.
+
 (* ---- the hypotheses are satisfiable: a concrete instance ----
    0,1 blobs; 2 = manifest{config 0, layers 1,1}; 3 = index{2}; 4 = referrer{subject 2, blob 1} *)
 Definition ex_ct : amap := [(2, [0;1;1]); (3, [2]); (4, [2;1])]%N.
